@@ -897,6 +897,63 @@ def run_r6(repo: Repo, res: Result) -> None:
                 detail = f"applied a second time, the matcher reads `{'`, `'.join(fields)}` as left behind by the first application (first read: {reads[0][1].split('::', 1)[1]}): module lists resolved against another architecture are re-used, so imports of modules that exist only in the new architecture are missing from the report"
             res.add("C03.R6", f"{head}::second application", ok, detail, reads[0][0] if reads else where(entry, entry.node), nontrivial=bool(names), kind="flow")
     res.floor("C03.R6", 2, n)
+    _run_r6_rule_level(repo, res, T, proto)
+
+
+# public fluent API (docs/, tests/): Rule().modules_that().are_named(..).should_not().import_modules_that().are_named(..)
+_FLUENT = (("modules_that", None), ("are_named", "pkg.subject"), ("should_not", None), ("import_modules_that", None), ("are_named", "pkg.object"))
+
+
+def _run_r6_rule_level(repo: Repo, res: Result, T, proto: ClassInfo) -> None:
+    """The same obligation one level up: a rule object (the public object users keep and re-apply) that is applied to a second
+    architecture reads nothing derived from the first one and asks the second one nothing that was resolved against the first.
+    Only decided when the rule object can be configured through the public fluent API in the abstract; otherwise no obligation."""
+    bases = [c for c in repo.classes.values() if any(m.is_abstract and _public(repo, m) and any(_mentions_class(_ann(T, m, p), proto.fq) for p in m.params[1:]) for m in c.methods.values())]
+    seen: set = set()
+    for base in bases:
+        names = [m.name for m in base.methods.values() if m.is_abstract and _public(repo, m) and any(_mentions_class(_ann(T, m, p), proto.fq) for p in m.params[1:])]
+        for cls in _concrete_classes(repo, base):
+            if cls.fq in seen or cls.fq == base.fq or not all(repo.lookup_method(cls, f) is not None for f, _ in _FLUENT):
+                continue
+            seen.add(cls.fq)
+            init = repo.lookup_method(cls, "__init__")
+            if init is not None and len(init.node.args.args) - 1 - len(init.node.args.defaults) > 0:
+                continue  # needs constructor arguments
+            for name in names:
+                entry = repo.lookup_method(cls, name)
+                if entry is None or entry.is_abstract:
+                    continue
+                it = Interp(repo)
+                try:
+                    obj = it.instantiate(cls, lambda p, init: None, "rule")
+                    cur = obj
+                    for i, (f, arg) in enumerate(_FLUENT):
+                        cur = it.call_method(cur, f, [V(Const(arg))] if arg is not None else [], f"fluent-{i}")
+                        cur = frozenset(sh for sh in cur if isinstance(sh, Ref) and sh.kind == "obj") or obj
+                    it.writes = set()
+                    it.scalar_calls = []
+                    arg1 = [V(Sc(srcs=frozenset({"evaluable#1"}))) if _mentions_class(_ann(T, entry, p), proto.fq) else V(Opaque(p.arg)) for p in entry.params[1:]]
+                    it.call_method(obj, name, arg1, "call-1")
+                    consulted = [c for c in it.scalar_calls if "evaluable#1" in c[1]]
+                    stale = {(k, f) for (k, f) in it.writes if _derives(it, it.cells[k].fields.get(f, E), "evaluable#1")}
+                    it.stale = set(stale)
+                    it.stale_reads = []
+                    arg2 = [V(Sc(srcs=frozenset({"evaluable#2"}))) if _mentions_class(_ann(T, entry, p), proto.fq) else V(Opaque(p.arg)) for p in entry.params[1:]]
+                    it.call_method(obj, name, arg2, "call-2")
+                except (RuntimeError, RecursionError, KeyError, AttributeError, TypeError, IndexError, ValueError):
+                    continue
+                if not consulted or not any("evaluable#2" in c[1] for c in it.scalar_calls):
+                    continue  # the abstract rule never reached a query: nothing to decide at this level
+                head = f"{entry.relpath}::{cls.name}.{name}"
+                reads = it.stale_reads
+                crossed = [c for c in it.scalar_calls if "evaluable#2" in c[1] and "evaluable#1" in c[2]]
+                ok = not reads and not crossed
+                detail = "a rule object applied to a second architecture re-creates everything it derives from the architecture"
+                if reads:
+                    detail = f"a rule object applied to a second architecture reads `{'`, `'.join(sorted({r[2] for r in reads}))}` as left behind by the first application (first read: {reads[0][1].split('::', 1)[1]}): the report is about the modules of the first architecture"
+                elif crossed:
+                    detail = f"a rule object applied to a second architecture asks it about modules that were resolved against the first one (`{crossed[0][3].rsplit('::', 1)[-1]}`)"
+                res.add("C03.R6", f"{head}::rule object applied twice", ok, detail, reads[0][0] if reads else (crossed[0][3].split("::", 1)[0] if crossed else where(entry, entry.node)), kind="flow")
 
 
 def run(repo: Repo) -> Result:
